@@ -297,6 +297,17 @@ def pipeline(job, trace_props=None, tag=""):
         cmd = ["cbmc", cur, "--verbosity", "8", "--drop-unused-functions", "--object-bits", "12"] + job.safety + job.cbmc
         if degraded:
             cmd = [c for c in cmd if c != "--unwinding-assertions"] + ["--unwind", str(job.degraded_unwind)]
+            if job.degraded_unwind > 8:
+                # a deep bounded search: keep it feasible by unwinding the LAST-numbered loop of every function with
+                # several loops (the outermost of a nest: back edges are numbered in order) only 3 times.  Any choice of
+                # bounds is sound for refutation; it only decides how far the search looks.
+                rc_, text_, _ = run(["goto-instrument", "--show-loops", cur], 120)
+                last = {}
+                for m in re.finditer(r"^Loop (\S+?)\.(\d+):", text_ or "", re.M):
+                    last.setdefault(m.group(1), []).append(int(m.group(2)))
+                us = ["%s.%d:3" % (f, max(ns)) for f, ns in last.items() if len(ns) > 1 and not f.startswith("__CPROVER")]
+                if us:
+                    cmd += ["--unwindset", ",".join(us)]
         if job.solver:
             cmd += ["--" + job.solver]
         if trace_props:
